@@ -78,7 +78,10 @@ def check_meta(e, v, res, how, shape_env=None):
             if int(nv) != v.shape[i]:
                 return f'{cls}: value.shape[{i}]={v.shape[i]} but announced (computed) {int(nv)}'
     if e.dtype == int and v.size:
-        lo, hi = e._intbounds
+        try:
+            lo, hi = e._intbounds
+        except Exception as ex:
+            return f'{cls}: integer range inference raised {type(ex).__name__}: {str(ex)[:100]}'
         res.count('intbounds_checked')
         if numpy.isfinite(lo) or numpy.isfinite(hi):
             res.count('intbounds_finite')
